@@ -19,7 +19,10 @@ import datetime
 import importlib
 import inspect
 import pkgutil
+import enum
 import struct
+import sys
+import zlib
 
 from lib import fletcher, frame as wire_frame
 import realenv
@@ -202,7 +205,7 @@ def real_frameseq(line):
                         f.data[k] = b
                     else:
                         f.data.append(b)
-            out.append(bytes(f.to_bytes()).hex())
+            out.append(bytes(realenv.in_thread(f.to_bytes)).hex())
             if bytes(f.data) != pl:
                 out.append('DATA-CHANGED')
     except Exception as e:
@@ -283,8 +286,52 @@ def real_framethreads(line):
     return f'bad={"some" if sum(bad) else 0}'
 
 
+def real_frameobs(line):
+    """to_bytes() under observation: a trace function (a debugger's log point, a profiler; the same as a signal handler or a
+    monitor thread that prints the frame in flight) evaluates repr(frame), str(frame) and vars(frame) every few lines while
+    the frame is being serialised.  Looking at an object must not change what it does."""
+    p = line.split('|')
+    cls_, id_, pl, period = int(p[1]), int(p[2]), bytes.fromhex(p[3]), max(1, int(p[4]))
+    f = make_frame(cls_, id_)
+    f.data = bytearray(pl)
+    state = {'n': 0, 'busy': False}
+
+    def local(frm, event, arg):
+        if event == 'line' and not state['busy']:
+            state['n'] += 1
+            if state['n'] % period == 0:
+                state['busy'] = True
+                try:
+                    repr(f), str(f), repr(vars(f))
+                except Exception:
+                    pass
+                finally:
+                    state['busy'] = False
+        return local
+
+    def tracer(frm, event, arg):
+        return local if 'ubxlib' in frm.f_code.co_filename else None
+    try:
+        sys.settrace(tracer)
+        try:
+            b1 = bytes(f.to_bytes())
+        finally:
+            sys.settrace(None)
+        b2 = bytes(f.to_bytes())
+    except Exception as e:
+        return 'EXC:' + exc_name(e)
+    return b1.hex() + ' ' + ('same' if b1 == b2 and bytes(f.data) == pl else 'DIFF')
+
+
+def model_line_frame(line):
+    p = line.split('|')
+    return '|'.join(['frame'] + p[1:4]) if p[0] == 'frameobs' else line
+
+
 def real_frame(line):
     p = line.split('|')
+    if p[0] == 'frameobs':
+        return real_frameobs(line)
     if p[0] == 'framethreads':
         return real_framethreads(line)
     if p[0] == 'framecls':
@@ -311,7 +358,7 @@ def real_frame(line):
 
 
 def oracles_frame(line, real_out):
-    p = line.split('|')
+    p = model_line_frame(line).split('|')
     what = 'to_bytes() = sync, class, id, 16-bit little-endian length, payload, Fletcher checksum; twice the same; frame unchanged'
     if p[0] == 'framethreads':
         return [{'prop': q, 'ok': real_out == 'bad=0', 'expected': 'bad=0', 'observed': real_out,
@@ -349,6 +396,11 @@ def gen_frame(rng, n, profile):
             yield f'framethreads|{nthreads}|{length}|{rounds}|{rng.randrange(1 << 20)}'
         return
     lens = list(range(0, 300)) + [510, 511, 512, 513, 999, 1000, 1001, 4095, 4096]
+    if not profile.startswith('all-lengths'):
+        for ln in (0, 1, 2, 7, 30, 200):
+            for period in (1, 2, 3, 7):
+                pl = bytes(rng.randrange(256) for _ in range(ln))
+                yield f'frameobs|{rng.randrange(256)}|{rng.randrange(256)}|{pl.hex()}|{period}'
     if profile.startswith('all-lengths'):
         k, K = map(int, profile.split(':')[1].split('/')) if ':' in profile else (0, 1)
         for ln in range(k, 65536, K):
@@ -411,11 +463,11 @@ def real_ckil(line):
         elif op[0] == 'A':
             k, h = op[1:].split(':')
             for x in bytes.fromhex(h):
-                objs[int(k)].add(x)
+                realenv.in_thread(objs[int(k)].add, x)
         elif op[0] == 'R':
-            objs[int(op[1:])].reset()
+            realenv.in_thread(objs[int(op[1:])].reset)
         elif op[0] == 'V':
-            va, vb = objs[int(op[1:])].value()
+            va, vb = realenv.in_thread(objs[int(op[1:])].value)
             out.append(f'{va},{vb}')
     return ' '.join(out)
 
@@ -469,9 +521,10 @@ def real_ck(line):
             c = Checksum()
             c.add(0x55)
             c.reset()
-            for x in bytes.fromhex(p[1]):
-                c.add(x)
-            va, vb = c.value()
+            data = bytes.fromhex(p[1])
+            for k in range(0, len(data), 7):        # (in pieces: each piece may come from another thread)
+                realenv.in_thread(lambda part: [c.add(x) for x in part], data[k:k + 7])
+            va, vb = realenv.in_thread(c.value)
             return f'{va},{vb} {"true" if c.matches(va, vb) else "false"}'
     except Exception as e:
         return 'EXC:' + exc_name(e)
@@ -695,6 +748,53 @@ def gen_fields(rng, n, profile):
             yield f'fields|{name}|' + payload_for(rng, name).hex()
 
 
+# ---- a user's item type ---------------------------------------------------------------------------------
+def real_subitem(line):
+    """an item type derived from one of the library's, with another `fmt` - after the parent type has been used"""
+    import ubxlib.types as T
+    _, parent, fmt, v = line.split('|')
+    P = getattr(T, parent)
+    try:
+        warm = P('warm')
+        warm.value = 1
+        warm.unpack(bytearray(warm.pack()) + bytes(8))
+        Sub = type('My' + parent, (P,), {'fmt': fmt})
+        it = Sub('x')
+        it.value = int(v)
+        try:
+            data = bytes(it.pack())
+        except Exception as e:
+            return 'pack=EXC:' + exc_name(e)
+        back = Sub('y')
+        try:
+            n = back.unpack(bytearray(data))
+            return f'pack={data.hex()} back={show(back.value)} n={n}'
+        except Exception as e:
+            return f'pack={data.hex()} back=EXC:' + exc_name(e)
+    except Exception as e:
+        return 'EXC:' + exc_name(e)
+
+
+def oracles_subitem(line, real_out):
+    _, parent, fmt, v = line.split('|')
+    v, w = int(v), struct.calcsize('<' + fmt)
+    lo, hi = (-(1 << (8 * w - 1)), (1 << (8 * w - 1)) - 1) if fmt.islower() else (0, (1 << 8 * w) - 1)
+    if not lo <= v <= hi:
+        return [], []
+    exp = f'pack={(v % (1 << 8 * w)).to_bytes(w, "little").hex()} back={v} n={w}'
+    return [{'prop': q, 'ok': real_out == exp, 'expected': exp, 'observed': real_out[:200],
+             'what': "a user's item type (a library item type with another `fmt`) is encoded and decoded by its own format"} for q in ('C07', 'C08', 'C12')], []
+
+
+def gen_subitem(rng, n, profile):
+    for parent in ('U1', 'U2', 'U4', 'I1', 'I2', 'I4', 'X1', 'X2', 'X4'):
+        for fmt in 'BbHhIiQq':
+            w = struct.calcsize('<' + fmt)
+            lo, hi = (-(1 << (8 * w - 1)), (1 << (8 * w - 1)) - 1) if fmt.islower() else (0, (1 << 8 * w) - 1)
+            for v in (lo, hi, 1, hi // 3, lo - 1, hi + 1):
+                yield f'subitem|{parent}|{fmt}|{v}'
+
+
 # ---- one text item ------------------------------------------------------------------------------------
 def real_ch(line):
     _, n, h = line.split('|')
@@ -783,10 +883,13 @@ def real_assign(line):
         if mode.startswith('P'):
             f.pack()
             f.to_bytes()
+        given = parse_value(val)
+        if isinstance(given, int):
+            given = dress(given, line)
         if 'G' in mode:
-            f.get(field).value = parse_value(val)
+            f.get(field).value = given
         else:
-            setattr(f.f, field, parse_value(val))
+            setattr(f.f, field, given)
         if getattr(f.f, field) != parse_value(val):
             return 'not-assigned'
     except Exception as e:
@@ -920,20 +1023,108 @@ def real_keyseq(line):
     return ' '.join(out)
 
 
+class SubInt(int):
+    """an int by another name (what numpy-free code calls `Level(3)`, `Hz(10)` …)"""
+
+
+def dress(v, line):
+    """the integer as the caller may hold it: a plain int, an int subclass, an IntEnum / IntFlag member, a bool.  Which one
+    depends on the line (and repeats on a replay); to the codec they are the same number"""
+    k = zlib.crc32(line.encode()) % 8
+    if k == 0:
+        return SubInt(v)
+    if k == 1:
+        return enum.IntEnum('Setting', {'CHOSEN': v}).CHOSEN
+    if k == 2 and v >= 0:
+        return enum.IntFlag('Mask', {'CHOSEN': v}).CHOSEN if v else v
+    if k == 3 and v in (0, 1):
+        return bool(v)
+    return v
+
+
+def real_keytab(line):
+    """the public key table changes while items are decoded and built: T<key>:<1|0|-> register as signed / unsigned or
+    remove (what an application with keys of its own does), U<hex> decode an item, F<key>:<value> build from a key and pack,
+    G<hex> decode a VALGET payload.  The table is put back as it was afterwards."""
+    from ubxlib.cfgkeys import KeyInfo
+    from ubxlib.ubx_cfg_valget import UbxCfgValGet
+    saved = dict(UbxKeyId.KEY_INFO)
+    out = []
+    try:
+        for op in line.split('|', 1)[1].split(';'):
+            try:
+                if op[0] == 'T':
+                    k, v = op[1:].split(':')
+                    if v == '-':
+                        UbxKeyId.KEY_INFO.pop(int(k), None)
+                    else:
+                        UbxKeyId.KEY_INFO[int(k)] = KeyInfo('CFG-USER-KEY', v == '1')
+                elif op[0] == 'U':
+                    u = CfgKeyData('x')
+                    n = u.unpack(bytearray(bytes.fromhex(op[1:])))
+                    out.append(f'{item_str(u)},n={n}')
+                elif op[0] == 'F':
+                    k, v = op[1:].split(':')
+                    c = CfgKeyData.from_key(int(k), int(v))
+                    try:
+                        out.append(item_str(c, int(v)) + ',' + bytes(c.pack()).hex())
+                    except Exception as e:
+                        out.append(item_str(c, int(v)) + ',EXC:' + exc_name(e))
+                elif op[0] == 'G':
+                    f = UbxCfgValGet.construct(bytearray(bytes.fromhex(op[1:])))
+                    out.append('/'.join(item_str(it) for it in ordered_items(f) if isinstance(it, CfgKeyData)))
+                else:
+                    out.append('bad-op')
+            except Exception as e:
+                out.append('EXC:' + exc_name(e))
+    finally:
+        UbxKeyId.KEY_INFO.clear()
+        UbxKeyId.KEY_INFO.update(saved)
+    return ' '.join(out)
+
+
+def oracles_keytab(line, real_out):
+    """decoded values against the reference decoder with the table as it is at each operation; an item that decodes
+    re-encodes to the bytes it was decoded from (C14), with the signedness the table gives its key (C13, C07)"""
+    table = {k: v.signed for k, v in UbxKeyId.KEY_INFO.items()}
+    outs = real_out.split(' ')
+    j, bad = 0, None
+    for op in line.split('|', 1)[1].split(';'):
+        if op[0] == 'T':
+            k, v = op[1:].split(':')
+            if v == '-':
+                table.pop(int(k), None)
+            else:
+                table[int(k)] = v == '1'
+            continue
+        got = outs[j] if j < len(outs) else 'missing'
+        j += 1
+        if op[0] == 'U':
+            data = bytes.fromhex(op[1:])
+            r = ref_unpack(data, table)
+            exp = 'EXC:ValueError' if r is None else ','.join(map(str, [r[0][0], r[0][1], r[0][2], int(r[0][3]), r[0][4]])) + f',n={r[1]}'
+            if got != exp:
+                bad = bad or f'{op[:40]}: expected {exp}, got {got}'
+    what = 'configuration items are decoded with the signedness the key table gives their key at the time of the call'
+    return [{'prop': q, 'ok': bad is None, 'expected': 'as the reference decoder', 'observed': bad or 'ok', 'what': what} for q in ('C07', 'C08', 'C13', 'C14')], []
+
+
 def real_key(line):
     p = line.split('|')
     try:
+        if p[0] == 'keytab':
+            return real_keytab(line)
         if p[0] == 'keyseq':
             return real_keyseq(line)
         if p[0] == 'keypack':
-            g, i, bits, sg, v = int(p[1]), int(p[2]), int(p[3]), p[4] == '1', int(p[5])
+            g, i, bits, sg, v = int(p[1]), int(p[2]), int(p[3]), p[4] == '1', dress(int(p[5]), line)
             return bytes(CfgKeyData('x', g, i, bits, v, sg).pack()).hex()
         if p[0] == 'keyunpack':
             u = CfgKeyData('x')
             n = u.unpack(bytearray(bytes.fromhex(p[1])))
             return f'{item_str(u)} n={n}'
         if p[0] == 'fromkey':
-            key, v = int(p[1]), int(p[2])
+            key, v = int(p[1]), dress(int(p[2]), line)
             c = CfgKeyData.from_key(key, v)
             head = item_str(c, v)
             try:
@@ -996,6 +1187,8 @@ def oracles_keyseq(line, real_out):
 
 def oracles_key(line, real_out):
     p = line.split('|')
+    if p[0] == 'keytab':
+        return oracles_keytab(line, real_out)
     if p[0] == 'keyseq':
         return oracles_keyseq(line, real_out)
     recs, spec = [], []
@@ -1080,7 +1273,37 @@ def published_keys():
     return sorted(ks | {k for k in getattr(UbxKeyId, 'KEY_INFO', {}) if isinstance(k, int)})
 
 
+def gen_keytab(rng, n):
+    """keys of the application's own (signed ones of every width among them) registered, changed and removed between uses -
+    also keys that were looked up before they were registered, and published keys re-registered with the other signedness"""
+    pub = published_keys()
+    for _ in range(n):
+        mine = [(rng.choice([1, 2, 3, 4, 5]) << 28) | (rng.randrange(256) << 16) | rng.randrange(4096) for _ in range(rng.choice([1, 2, 3]))]
+        if rng.random() < .3:
+            mine.append(rng.choice(pub))
+        ops = []
+        for _ in range(rng.randrange(3, 9)):
+            k = rng.choice(mine)
+            bits = {1: 1, 2: 8, 3: 16, 4: 32, 5: 64}[(k >> 28) & 7]
+            u = rng.random()
+            if u < .35:
+                ops.append(f'T{k}:{rng.choice(["1", "1", "0", "-"])}')
+            elif u < .7:
+                val = bytes([rng.choice([0, 1])]) if bits == 1 else bytes(rng.choice([0xff, 0x80, 0xce, 0, rng.randrange(256)]) for _ in range(WIDTH[bits]))
+                ops.append('U' + (struct.pack('<I', k) + val).hex())
+            elif u < .85:
+                ops.append(f'F{k}:{rng.choice([-1, -50, 1, 0, 200, -(1 << (bits - 1)) if bits > 1 else 1, (1 << bits) - 1])}')
+            else:
+                pl = bytearray([1, 0, 0, 0])
+                for kk in rng.sample(mine, rng.randrange(1, len(mine) + 1)):
+                    b = {1: 1, 2: 8, 3: 16, 4: 32, 5: 64}[(kk >> 28) & 7]
+                    pl += struct.pack('<I', kk) + (bytes([1]) if b == 1 else bytes(rng.choice([0xff, 0xfe, 0x7f, 0]) for _ in range(WIDTH[b])))
+                ops.append('G' + bytes(pl).hex())
+        yield 'keytab|' + ';'.join(ops)
+
+
 def gen_key(rng, n, profile):
+    yield from gen_keytab(rng, max(20, n // 5))
     keys = published_keys()
     # exhaustive: size code 0..7 x available value bytes 0..9 x value patterns x reserved bits set/clear
     for code in range(8):
@@ -1180,7 +1403,7 @@ def real_valset(line):
     p = line.split('|')
     try:
         if p[0] == 'valset':
-            items = [CfgKeyData('x', g, i, b, v, s) for g, i, b, s, v in parse_items(p[1])]
+            items = [CfgKeyData('x', g, i, b, dress(v, line + str(k)), s) for k, (g, i, b, s, v) in enumerate(parse_items(p[1]))]
             f = UbxCfgValSetAction(items)
             f.pack()
             return bytes(f.data).hex()
@@ -1213,8 +1436,14 @@ def real_valset(line):
     return 'bad-line'
 
 
-def ref_unpack(data):
-    """reference decoder of one key/value pair: (item tuple, consumed) or None when malformed"""
+def ref_unpack(data, table=None):
+    """reference decoder of one key/value pair: (item tuple, consumed) or None when malformed; `table`: key -> signed, when
+    it is not the published one"""
+    if table is not None:
+        def table_signed(key):
+            return bool(table.get(key, False))
+    else:
+        table_signed = globals()['table_signed']
     if len(data) < 4:
         return None
     key = struct.unpack('<I', data[:4])[0]
@@ -1729,10 +1958,11 @@ def gen_render(rng, n, profile):
 
 
 COMPONENTS = {
-    'frame': {'real': real_frame, 'oracles': oracles_frame, 'gen': gen_frame},
+    'frame': {'real': real_frame, 'oracles': oracles_frame, 'gen': gen_frame, 'model_line': model_line_frame},
     'ck': {'real': real_ck, 'oracles': oracles_ck, 'gen': gen_ck},
     'fields': {'real': real_fields, 'oracles': oracles_fields, 'gen': gen_fields},
     'ch': {'real': real_ch, 'oracles': oracles_ch, 'gen': gen_ch},
+    'subitem': {'real': real_subitem, 'oracles': oracles_subitem, 'gen': gen_subitem},
     'assign': {'real': real_assign, 'oracles': oracles_assign, 'gen': gen_assign},
     'key': {'real': real_key, 'oracles': oracles_key, 'gen': gen_key},
     'valset': {'real': real_valset, 'oracles': oracles_valset, 'gen': gen_valset, 'model_line': model_line_valset},
